@@ -932,6 +932,116 @@ def gen_reuse_case(rng, which):
 
 
 # --------------------------------------------------------------------------
+# sample points with GENERAL (not exactly representable) centres: floating-point stream
+# --------------------------------------------------------------------------
+GEN_OS = [1, 2, 3, 4, 5, (2, 3), (3, 2), (4, 1), (1, 5), (5, 3)]
+GEN_CENTRES = [2.3, 7.7, 24.37, 25.21, -3.1, 0.1, 11.9, 100.7, -0.3, 6.65]
+
+
+def gen_decimal(rng, lo, hi):
+    return rng.choice([round(rng.uniform(lo, hi), rng.choice([1, 2, 3])), rng.choice(GEN_CENTRES),
+                       rng.uniform(lo, hi)])
+
+
+def gen_general_case(rng, which):
+    ny, nx = rng.randint(5, 9), rng.randint(5, 9)
+    os_ = rng.choice(GEN_OS)
+    fill = rng.choice(['nan', 0.0, -3.5, None])
+    flux = rng.choice([1.0, 2.5, 0.7, 1234.5, round(rng.uniform(0.1, 50), 3)])
+    spec = dict(kind='general', which=which, oversampling=list(os_) if isinstance(os_, tuple) else os_, fill=fill,
+                flux=flux, shape2d=rng.random() < 0.5)
+    if which == 'image':
+        spec['data'] = [[rng.randint(1, 60) for _ in range(nx)] for _ in range(ny)]
+        ok = rng.choice(['none', 'none', 'int', 'decimal', 'outside'])
+        spec['origin'] = (None if ok == 'none' else
+                          [float(rng.randint(0, nx - 1)), float(rng.randint(0, ny - 1))] if ok == 'int' else
+                          [round(rng.uniform(0, nx - 1), 2), round(rng.uniform(0, ny - 1), 2)] if ok == 'decimal' else
+                          [rng.choice([-2.4, nx + 1.3]), rng.choice([-1.0, ny + 0.6])])
+        spec['x_0'], spec['y_0'] = gen_decimal(rng, -50, 50), gen_decimal(rng, -50, 50)
+    else:
+        gx, gy = rng.choice([1, 2, 3]), rng.choice([1, 2, 3])
+        xg = sorted({gen_decimal(rng, -20, 60) for _ in range(gx)})
+        yg = sorted({gen_decimal(rng, -20, 60) for _ in range(gy)})
+        pos = [[x, y] for y in yg for x in xg]
+        rng.shuffle(pos)
+        spec['xg'], spec['yg'], spec['grid_xypos'] = xg, yg, pos
+        spec['stamps'] = [[[rng.randint(1, 60) for _ in range(nx)] for _ in range(ny)] for _ in pos]
+        rk = rng.choice(['node', 'node', 'inside', 'outside'])
+        if rk == 'node':
+            spec['x_0'], spec['y_0'] = rng.choice(xg), rng.choice(yg)
+        elif rk == 'inside':
+            spec['x_0'], spec['y_0'] = rng.uniform(xg[0], xg[-1]), rng.uniform(yg[0], yg[-1])
+        else:
+            spec['x_0'] = rng.choice([xg[0] - gen_decimal(rng, 0.1, 9), xg[-1] + gen_decimal(rng, 0.1, 9)])
+            spec['y_0'] = gen_decimal(rng, yg[0] - 5, yg[-1] + 5)
+        spec['refkind'] = rk
+    return spec
+
+
+def run_general(spec):
+    """Evaluate at the INTERIOR sample points x_0 + (i - origin_x)/oversampling_x computed in floating point
+    the way a user would, and compare with flux*data (ImagePSF) / flux * bilinear blend of the stored ePSFs
+    (GriddedPSFModel; weights computed exactly from the float grid values).  Tolerance 1e-9 * |flux| *
+    max|data|: the spline interpolates its knots and the index noise is ~1e-13, a neighbouring pixel is
+    wrong by O(data).  Returns (number of points, list of failures)."""
+    import bisect
+    from astropy.nddata import NDData
+    from photutils.psf import GriddedPSFModel, ImagePSF
+    os_ = spec['oversampling']
+    osy, osx = (os_, os_) if not isinstance(os_, list) else os_
+    fill = NAN if spec['fill'] == 'nan' else spec['fill']
+    flux, x_0, y_0 = spec['flux'], spec['x_0'], spec['y_0']
+    osarg = os_ if not isinstance(os_, list) else tuple(os_)
+    if spec['which'] == 'image':
+        data = np.array(spec['data'], float)
+        kw = {} if spec['origin'] is None else {'origin': tuple(spec['origin'])}
+        m = ImagePSF(data, flux=flux, x_0=x_0, y_0=y_0, oversampling=osarg, fill_value=fill, **kw)
+        ny, nx = data.shape
+        ox, oy = ((nx - 1) / 2, (ny - 1) / 2) if spec['origin'] is None else spec['origin']
+        want = flux * data
+        cls = 'ImagePSF'
+    else:
+        stamps = np.array(spec['stamps'], float)
+        nd = NDData(stamps, meta={'grid_xypos': [tuple(p) for p in spec['grid_xypos']], 'oversampling': osarg})
+        m = GriddedPSFModel(nd, flux=flux, x_0=x_0, y_0=y_0, fill_value=fill)
+        ny, nx = stamps.shape[1:]
+        ox, oy = (nx - 1) / 2, (ny - 1) / 2
+
+        def axis(g, v):
+            v = min(max(F(v), F(g[0])), F(g[-1]))
+            if len(g) == 1:
+                return [(g[0], F(1))]
+            k = min(max(bisect.bisect_right(g, v) - 1, 0), len(g) - 2)
+            t = (v - F(g[k])) / (F(g[k + 1]) - F(g[k]))
+            return [(g[k], 1 - t), (g[k + 1], t)]
+        at = {tuple(p): st for p, st in zip(spec['grid_xypos'], stamps)}
+        want = flux * sum(float(a * b) * at[(gxv, gyv)] for gxv, a in axis(spec['xg'], x_0)
+                          for gyv, b in axis(spec['yg'], y_0))
+        cls = 'GriddedPSFModel'
+    ii, jj = np.meshgrid(np.arange(1, nx - 1), np.arange(1, ny - 1))
+    x = x_0 + (ii - ox) / osx
+    y = y_0 + (jj - oy) / osy
+    if not spec['shape2d']:
+        x, y, ii, jj = x.ravel(), y.ravel(), ii.ravel(), jj.ravel()
+    with np.errstate(all='ignore'):
+        got = np.asarray(m(x, y), float)
+    exp = want[jj, ii]
+    tol = 1e-9 * abs(flux) * float(np.abs(want).max() / abs(flux))
+    bad = ~(np.abs(got - exp) <= tol)
+    fails = []
+    if got.shape != exp.shape:
+        fails.append((f'{cls}:sample-points-general-centre', f'output shape {got.shape} != {exp.shape}'))
+    elif bad.any():
+        k = int(np.argmax(bad.ravel()))
+        fails.append((f'{cls}:sample-points-general-centre',
+                      f'{int(bad.sum())} of {bad.size} interior sample points differ from flux*data: e.g. sample '
+                      f'(i={int(ii.ravel()[k])}, j={int(jj.ravel()[k])}) at x={float(x.ravel()[k])!r}, '
+                      f'y={float(y.ravel()[k])!r}: got {float(got.ravel()[k])!r}, expected {float(exp.ravel()[k])!r} '
+                      f'(tolerance {tol:.3g})'))
+    return int(exp.size), fails
+
+
+# --------------------------------------------------------------------------
 # run
 # --------------------------------------------------------------------------
 def load_local_known(ctx):
@@ -972,7 +1082,10 @@ def run(ctx):
         'strided view / reversed view, float32, int64, list, scalar) reused for 2-4 evaluations over the model, copy() and '
         'deepcopy() with changing parameters; after every call the containers and their base buffers are compared '
         'bitwise with a snapshot and the output with a fresh model on fresh copies of the coordinates; every K '
-        'evaluation also snapshots its float64 inputs. non-trivial = at least one point inside the '
+        'evaluation also snapshots its float64 inputs. General-centre stream (support, floating point): ImagePSF and '
+        'GriddedPSFModel with decimal / random-double centres, origins and grid positions, oversampling 1..5 and unequal '
+        'pairs, evaluated at every interior sample point x_0 + (i - origin_x)/os_x computed in floats, compared with '
+        'flux*data (resp. the bilinear blend) to 1e-9*flux*max|data|. non-trivial = at least one point inside the '
         'sampled range; distinct = distinct case descriptions')
     ctx.assumptions += [
         'scipy RectBivariateSpline(kx=ky=3, s=0) interpolates its knots: checked on every sample point of every case '
@@ -1183,6 +1296,25 @@ def run(ctx):
             ctx.count_case(spec, True)
             for suffix, msg in fails:
                 report(f'{cls}:{suffix}', msg, spec)
+    # ---- sample points with general (decimal, not exactly representable) centres: floating-point stream
+    n_gen = 150 if quick else 1500
+    for which in ('image', 'grid'):
+        for k in range(n_gen):
+            spec = gen_general_case(rng, which)
+            ctx.stat('general_centre_' + which, 'cases')
+            ctx.stat('general_centre_oversampling', str(spec['oversampling']))
+            if which == 'grid':
+                ctx.stat('general_centre_grid_ref', spec['refkind'])
+            try:
+                npts, fails = run_general(spec)
+            except Exception as e:      # noqa
+                npts, fails = 0, [(f'{"ImagePSF" if which == "image" else "GriddedPSFModel"}:exception:'
+                                   f'{type(e).__name__}', f'{e!s:.200}')]
+            ctx.stat('general_centre_' + which, 'points', npts)
+            ctx.support('sample points with general centres (float, tol 1e-9*flux*max|data|): ' + which, npts)
+            ctx.count_case(spec, True)
+            for sig, msg in fails:
+                report(sig, msg, spec)
     # ---- real analytic models (real erf): direct clauses + numerical support
     for k in range(n_real):
         rc = gen_real_case(rng)
@@ -1230,6 +1362,9 @@ def replay(obj):
             if o is not None and not np.array_equal(o[0], o[2], equal_nan=True):
                 fails.append((0, 0, 'differs from a fresh object'))
         print('impl:', [None if o is None else o[0].tolist() for o in out])
+    elif kind == 'general':
+        npts, fails = run_general(r)
+        print('general-centre stream:', r['which'], 'x_0, y_0 =', r['x_0'], r['y_0'], 'points:', npts)
     elif kind == 'reuse':
         fails = run_reuse(r)
         print('model:', r['model'].get('kind'), 'coordinates:', r['coord'], 'ops:', [o['target'] for o in r['ops']])
